@@ -244,6 +244,11 @@ def parse_trace(out):
             cur = recs[-1]
         elif tok.startswith("state_settings="):
             recs[-1]["settings"] = tok.split("=", 1)[1]
+        elif tok.startswith("xerr="):
+            # error texts of refused Set requests, computed by the harness outside the client (miniconf's own Display of the
+            # error `json::set_by_key` returns on a copy of the settings)
+            body = tok.split("=", 1)[1]
+            recs[-1]["xerr"] = {} if body == "-" else {tuple(x.split("~")[:2]): uncp(x.split("~")[2]) for x in body.split(";")}
         else:
             cur = {"k": "ev", "tok": tok, "pkts": []}
             recs.append(cur)
